@@ -119,4 +119,6 @@ FIXED_BY_SUBJECT = {
    ('C19', 'after members had been stored out of order (s[1]=1; s[2]=5; s[0]=5; s[3]=5, which the setters accept and the repository tests pin) index(5) returned 2 instead of 0 and applied start/stop to the order of assignment (found when seeded change C19e made the history generator fill positions out of order)')],
  "fix: SequenceOf/SetOf sort() was stable with respect to storage order, not position": [
    ('C19', 'after an out-of-order fill, sort(key=...) with a key that ties distinct members left the ties in order of assignment instead of positional order: [0, 6, 0, 2] stored backwards and sorted by v // 3 gave [2, 0, 0, 6] instead of [0, 0, 2, 6]')],
+ "fix: decoders leaked ValueError when an error message had to print a huge integer": [
+   ('C08', 'under the interpreter default (sys.get_int_max_str_digits() == 4300, which the harness had switched off for its own arithmetic) an INTEGER of 1900 octets against INTEGER (0..10) / SEQUENCE (SIZE (2..3)) OF INTEGER, or any element whose tag number is spelled with 2100 continuation octets, made every decoder raise ValueError: the constraint violation message and the not-in-asn1Spec message print the number (reported by a seeding sub-agent as a side remark; C08 gained arm (vi), which runs the decoders under the default limit on integer-valued fields beyond 4300 digits)')],
 }
